@@ -481,8 +481,11 @@ def serveUnary (sc : Scenario) (env : Env) (t : RespTranscoder) : Resp :=
 
 /-- `ProxyForwarder.Forward` for a non-client-streaming method, as far as it decides what `ServeHTTP` renders. -/
 def serveForward (sc : Scenario) (env : Env) (t : RespTranscoder) (sse : Bool) : Resp :=
-  -- a deadline that expires while the target stays silent
-  if sc.inj == .deadline then failResp .deadline false (some t) (deadlineErr env) []
+  -- a deadline that expires while the target stays silent: after `n` streamed messages of a server stream the
+  -- response has started and the error is not rendered; otherwise (nothing written yet — a unary response message
+  -- is held back until the status arrives) it is a failure
+  if sc.inj == .deadline && sc.rpc == .serverStream && sc.n != 0 then serveStream sc env t sse
+  else if sc.inj == .deadline then failResp .deadline false (some t) (deadlineErr env) []
   -- forwardUnaryRequest: Incoming.Recv ⇒ reqtc.Transcode (the harness' wrapper returns the injected error first)
   else if sc.inj == .decode then failResp .requestDecode sc.gone (some t) (requestTranscodingError sc.err) []
   else match (if sc.bodyEmpty then none else env.natDecode) with
